@@ -67,6 +67,65 @@ theorem C17_multi (idx : IntTy) (i j : Int) (n1 n2 s base a : Nat) (hw : idx.wf)
     · have : n1 * n2 * s = n1 * (n2 * s) := Nat.mul_assoc _ _ _
       omega
 
+/-- Arrays of ANY rank (no bound on the number of dimensions): if the chain of checked index applications
+yields an address, every index lies inside its own dimension, the address is that of the row-major element,
+and the element lies wholly inside the array. By induction on the rank. -/
+theorem C17_multi_n (idx : IntTy) (hw : idx.wf) (hnb : idx.isBool = false) (s : Nat) :
+    ∀ (is : List Int) (ns : List Nat) (base a : Nat), (∀ i ∈ is, idx.inRange i) →
+      indexMulti idx is ns s base = some a →
+      a = base + flatIdx is ns * s ∧ a + s ≤ base + dimsProd ns * s ∧
+        allInside is ns := by
+  intro is
+  induction is with
+  | nil =>
+    intro ns base a _ h
+    cases ns with
+    | nil => simp [indexMulti] at h; subst h; simp [flatIdx, dimsProd, allInside]
+    | cons n ns => simp [indexMulti] at h
+  | cons i is ih =>
+    intro ns base a hr h
+    cases ns with
+    | nil => simp [indexMulti] at h
+    | cons n ns =>
+      simp only [indexMulti] at h
+      cases hr1 : indexArr idx i n (dimsProd ns * s) base with
+      | none => simp [hr1] at h
+      | some r =>
+        simp only [hr1, Option.bind_some] at h
+        obtain ⟨e1, b1, i0, i1⟩ := C17_designates idx i n (dimsProd ns * s) base r hw hnb (hr i (by simp)) hr1
+        obtain ⟨e2, b2, f2⟩ := ih ns r a (fun j hj => hr j (by simp [hj])) h
+        refine ⟨?_, ?_, ⟨⟨i0, i1⟩, f2⟩⟩
+        · simp only [flatIdx]
+          rw [e2, e1, Nat.add_mul, Nat.mul_assoc]; omega
+        · simp only [dimsProd]
+          have : n * dimsProd ns * s = n * (dimsProd ns * s) := Nat.mul_assoc _ _ _
+          omega
+
+/-- the 2-dimensional case of the general definition is `index2` -/
+theorem index2_eq_multi (idx : IntTy) (i j : Int) (n1 n2 s base : Nat) :
+    indexMulti idx [i, j] [n1, n2] s base = index2 idx i j n1 n2 s base := by
+  simp only [indexMulti, index2, dimsProd, Nat.mul_one, Nat.one_mul]
+  cases indexArr idx i n1 (n2 * s) base with
+  | none => rfl
+  | some r => simp only [Option.bind_some]; cases indexArr idx j n2 s r <;> rfl
+
+/-- distinct accepted indices designate disjoint elements -/
+theorem C17_disjoint (idx : IntTy) (v w : Int) (n stride base a b : Nat) (hw : idx.wf) (hnb : idx.isBool = false)
+    (hv : idx.inRange v) (hw' : idx.inRange w) (ha : indexArr idx v n stride base = some a)
+    (hb : indexArr idx w n stride base = some b) (hne : v ≠ w) : a + stride ≤ b ∨ b + stride ≤ a := by
+  obtain ⟨ea, _, v0, _⟩ := C17_designates idx v n stride base a hw hnb hv ha
+  obtain ⟨eb, _, w0, _⟩ := C17_designates idx w n stride base b hw hnb hw' hb
+  subst ea eb
+  rcases Int.lt_or_gt_of_ne hne with h | h
+  · left
+    have : v.toNat + 1 ≤ w.toNat := by omega
+    have := Nat.mul_le_mul_right stride this
+    rw [Nat.add_mul] at this; omega
+  · right
+    have : w.toNat + 1 ≤ v.toNat := by omega
+    have := Nat.mul_le_mul_right stride this
+    rw [Nat.add_mul] at this; omega
+
 /-- An index that lives in sandbox memory (`arr[*p]`, a `tainted_volatile` integer) may be rewritten by the
 sandbox at any moment: whatever the adversary does and whenever, the access aborts or designates an element
 of the array -- never a neighbour -- because the value that is checked is the value that is used. -/
@@ -88,6 +147,8 @@ example : indexArr ⟨false, 8, false⟩ 18446744073709551615 1 1 0 = none := by
 example : indexArr ⟨true, 1, false⟩ (-1) 4 8 100 = none := by decide
 example : indexArr ⟨false, 1, false⟩ 3 4 8 100 = some 124 := by decide
 example : index2 ⟨true, 4, false⟩ 2 4 3 5 4 0 = some 56 := by decide
+example : indexMulti ⟨true, 4, false⟩ [1, 2, 3] [2, 3, 4] 8 0 = some ((1*12 + 2*4 + 3) * 8) := by decide
+example : indexMulti ⟨true, 4, false⟩ [1, 3, 3] [2, 3, 4] 8 0 = none := by decide
 /-- the stride is that of the memory the array lives in -/
 example : (CTy.base .long).size abiHost = 8 ∧ (CTy.base .long).size abiA = 4 := by decide
 
